@@ -265,27 +265,19 @@ pub fn check_lifecycles(
             ));
         }
     }
-    // a transient value is built for one injection site: when nothing failed during the request,
-    // every transient that was built has been handed to some component (a second construction for
-    // the same site shows up as a value that nobody received)
-    let something_failed = e.iter().any(|x| x.kind == "exit" && x.v["o"] == "err");
-    if !something_failed {
-        for (t, built) in &built_per_type {
-            if spec.types[*t].life != Life::Transient {
-                continue;
-            }
-            let received: BTreeSet<u64> = e
-                .iter()
-                .filter(|x| x.kind == "recv" && ty_of(x.v["ty"].as_str().unwrap_or("")) == Some(*t))
-                .map(|x| x.v["root"].as_u64().unwrap_or(0))
-                .collect();
-            let orphans: Vec<&u64> = built.iter().filter(|id| !received.contains(id)).collect();
-            if !orphans.is_empty() {
-                return Err((
-                    "transient-built-but-never-injected".into(),
-                    format!("{}: transient {} was constructed {} times but only {} of those values were injected anywhere", ctx(), type_name(k, *t), built.len(), built.len() - orphans.len()),
-                ));
-            }
+    // a transient value is built for one injection site. The compiler may build the inputs of an
+    // error handler / observer before the fallible call they belong to (so a value can be built for
+    // a site that is not reached), but never more values than there are sites.
+    for (t, built) in &built_per_type {
+        if spec.types[*t].life != Life::Transient {
+            continue;
+        }
+        let bound = model::transient_site_bound(spec, route, *t);
+        if built.len() > bound {
+            return Err((
+                "transient-built-more-often-than-it-has-injection-sites".into(),
+                format!("{}: transient {} was constructed {} times while serving one request, but only {} injection sites can run for this route", ctx(), type_name(k, *t), built.len(), bound),
+            ));
         }
     }
     for (t, ids) in &transient_ids {
